@@ -9,7 +9,7 @@
 import numpy as np
 
 import h5py
-from datetime import datetime
+from datetime import datetime, timezone
 from uuid import uuid4, UUID
 from ..exceptions import exceptions
 from . import names
@@ -105,8 +105,8 @@ def now_int():
 
     :return: integer POSIX time
     """
-    now = datetime.now() - datetime(1970, 1, 1)
-    return int(now.total_seconds())
+    # seconds since 1970-01-01 UTC, whatever the local time zone is
+    return int(datetime.now(timezone.utc).timestamp())
 
 
 def time_to_str(time):
